@@ -87,7 +87,7 @@ type conf struct {
 }
 
 func main() {
-	run := lib.Start("C19", "the real binary run with generated secrets (16-20 characters, each of 27 special characters in turn incl. : @ / ? # % & + = space quotes backslash $ backtick) in --basic-auth, --api-basic-auth, --proxy userinfo, several --credentials entries and inline data: key material (--tls-key-file, --mitm-cakey-file, --cacert-file), supplied as flags / FORWARDER_* environment / YAML / JSON config file, at log levels error, info, debug x formats text, json x stdout or --log-file x --log-http none, short-url, url, errors (in a third of the configurations as 'proxy:<mode>,api:headers|body', each module keeping its own mode); traffic: authenticated request via the upstream proxy, request with site credentials, CONNECT + MITM request, 407, 403, 502 error responses, /configz; everything printed, logged, served or returned is scanned for each secret in raw, URL-escaped, quoted and base64 (std, url, 3 alignments) forms and for 24-character windows of key material; non-secret companions must be visible; distinct = (channel, level, format, log target, log-http mode, special character) signatures")
+	run := lib.Start("C19", "the real binary run with generated secrets (16-20 characters, each of 27 special characters in turn incl. : @ / ? # % & + = space quotes backslash $ backtick) in --basic-auth, --api-basic-auth, --proxy userinfo, several --credentials entries and inline data: key material (--tls-key-file, --mitm-cakey-file, --cacert-file), supplied as flags / FORWARDER_* environment / YAML / JSON config file, at log levels error, info, debug x formats text, json x stdout or --log-file x --log-http none, short-url, url, errors (in a third of the configurations as 'proxy:<mode>,api:headers|body', each module keeping its own mode); traffic: authenticated request via the upstream proxy, request with site credentials, an Upgrade answered 101 with site credentials, CONNECT + MITM request, 407, 403, 502 error responses, /configz; everything printed, logged, served or returned is scanned for each secret in raw, URL-escaped, quoted and base64 (std, url, 3 alignments) forms and for 24-character windows of key material; non-secret companions must be visible; distinct = (channel, level, format, log target, log-http mode, special character) signatures")
 	root := run.RNG()
 	n := run.N(36, 1300)
 	var wg sync.WaitGroup
@@ -108,6 +108,7 @@ func main() {
 	run.Floor("configs_scanned", int64(n*8/10))
 	run.Floor("secret_occurrences_checked", int64(n*20))
 	run.Floor("companions_visible", int64(n/3))
+	run.Floor("upgrade_exchanges", int64(n/2))
 	run.Floor("configz_fetched", int64(n*7/10))
 	run.Floor("error_responses_scanned", int64(n))
 	run.Finish()
@@ -151,6 +152,11 @@ func oneConfig(run *lib.Run, r *lib.RNG, idx int) {
 		}
 		if a := req.Get1("Authorization"); a != "" {
 			seenSite.Store(a, true)
+		}
+		if req.Get1("Upgrade") != "" {
+			// a successful exchange too: the protocol switch, then the end of the tunnel
+			oc.Write([]byte("HTTP/1.1 101 Switching Protocols\r\nConnection: Upgrade\r\nUpgrade: " + req.Get1("Upgrade") + "\r\n\r\n"))
+			return lib.Close
 		}
 		oc.Write(lib.SimpleResponse(200, "OK", []lib.Field{{"X-Vid", req.Get1("X-Vid")}}, []byte("ok")))
 		return lib.Continue
@@ -308,6 +314,9 @@ func oneConfig(run *lib.Run, r *lib.RNG, idx int) {
 	// successful exchanges that involve the credentials
 	ok1 := do("via-upstream", "GET http://plain.test/a HTTP/1.1\r\nHost: plain.test\r\n"+auth+"\r\n", "GET")
 	ok2 := do("site-credentials", "GET http://site-one.test/b HTTP/1.1\r\nHost: site-one.test\r\n"+auth+"\r\n", "GET")
+	if up101 := do("site-upgrade", "GET http://site-one.test/ws HTTP/1.1\r\nHost: site-one.test\r\nConnection: Upgrade\r\nUpgrade: vrf-proto\r\n"+auth+"\r\n", "GET"); up101 != nil && up101.Status == 101 {
+		run.Count("upgrade_exchanges", 1)
+	}
 	do("site-wildcard-port", "GET http://other.test:8080/c HTTP/1.1\r\nHost: other.test:8080\r\n"+auth+"\r\n", "GET")
 	if ok1 == nil || ok1.Status != 200 || ok2 == nil || ok2.Status != 200 {
 		run.Count("authenticated_exchange_failed", 1)
